@@ -7,6 +7,8 @@ props = [json.loads(l)["id"] for l in open(os.path.join(VERIF, "properties.jsonl
 checks, na = [], []
 import subprocess
 tracked = set(subprocess.run(["git", "-C", VERIF, "ls-files", "--cached", "checks"], capture_output=True, text=True).stdout.split())
+READY = set(json.load(open(os.path.join(VERIF, "tools", "ready.json"))))   # properties integrated and verified by the main session
+tracked = set(t for t in tracked if os.path.basename(t)[:-3] in READY)
 NA_REASONS = json.load(open(os.path.join(VERIF, "tools", "not_applicable.json"))) if os.path.exists(os.path.join(VERIF, "tools", "not_applicable.json")) else {}
 for p in props:
     f = os.path.join(VERIF, "checks", p + ".py")
